@@ -1812,3 +1812,152 @@ package decimal128
 //@ call RoundingMode.reduce128#1: V = V
 //@ props C05 C13 C20
 //@ alias parseNumber[[]byte] = parseNumber[string]
+
+// parse: optional sign, the special names in any case, otherwise parseNumber on the rest. B is the
+// input without its sign.
+//@ func parse[string]
+//@ returns (v, err)
+//@ logical V real
+//@ define D0 = old(d)
+//@ define SGN = (len(D0) > 0 && (D0[0] == 43 || D0[0] == 45))
+//@ define NEG = (len(D0) > 0 && D0[0] == 45)
+//@ define B = from(D0, ite(SGN, 1, 0))
+//@ define LC0 = ite(B[0] >= 97, B[0] - 32, B[0])
+//@ define LC1 = ite(B[1] >= 97, B[1] - 32, B[1])
+//@ define LC2 = ite(B[2] >= 97, B[2] - 32, B[2])
+//@ define INF3 = (len(B) == 3 && (B[0] == 73 || B[0] == 105) && (B[1] == 78 || B[1] == 110) && (B[2] == 70 || B[2] == 102))
+//@ define NAN3 = (len(B) == 3 && (B[0] == 78 || B[0] == 110) && (B[1] == 65 || B[1] == 97) && (B[2] == 78 || B[2] == 110))
+//@ define INF8 = (len(B) == 8 && (B[0] == 73 || B[0] == 105) && (B[1] == 78 || B[1] == 110) && (B[2] == 70 || B[2] == 102) && (B[3] == 73 || B[3] == 105) && (B[4] == 78 || B[4] == 110) && (B[5] == 73 || B[5] == 105) && (B[6] == 84 || B[6] == 116) && (B[7] == 89 || B[7] == 121))
+//@ define NAME = (INF3 || NAN3 || INF8)
+//@ define ACCEPT = ((pst(B, len(B)) == 1 || pst(B, len(B)) == 4 || pst(B, len(B)) == 5 || pst(B, len(B)) == 9))
+//@ define EXPO = (ite(esg(B, len(B)) == 1, 0 - ev(B, len(B)), ev(B, len(B))) - nfd(B, len(B)))
+//@ define SYNTAX = (tag(err) == typetag("*parseSyntaxError"))
+//@ define RANGE = (tag(err) == typetag("*parseRangeError"))
+//@ requires len(d) <= 1099511627776 && DefaultRoundingMode <= 5 && op < 256
+//@ requires ACCEPT ==> V >= 0 && rs(V, 6176 + EXPO) == real(dv(B, len(B)))
+//@ ensures INF3 || INF8 ==> tag(err) == 0 && isinf(v) && sign(v) == NEG && lo(v) == 0
+//@ ensures NAN3 ==> tag(err) == 0 && isnan(v) && !sign(v) && lo(v) == op
+//@ ensures !NAME ==> (SYNTAX <==> !ACCEPT)
+//@ ensures tag(err) == 0 || SYNTAX || RANGE
+//@ ensures SYNTAX ==> lo(v) == 0 && hi(v) == 0
+//@ ensures !NAME && !SYNTAX ==> (RANGE <==> isinf(v)) && !isnan(v)
+//@ ensures !NAME && !SYNTAX && isinf(v) ==> sign(v) == NEG && lo(v) == 0 && Ovf(DefaultRoundingMode, NEG, rs(V, 12287))
+//@ ensures !NAME && tag(err) == 0 ==> !special(v) && sign(v) == NEG
+//@ ensures !NAME && tag(err) == 0 && dv(B, len(B)) == 0 ==> coef(v) == 0
+//@ ensures !NAME && tag(err) == 0 && dv(B, len(B)) != 0 ==> (rs(V, 0) < 0.1 && coef(v) == 0) || (rs(V, 0) >= 0.1 && RndOK(DefaultRoundingMode, NEG, rs(V, bexp(v)), coef(v), bexp(v)))
+//@ call parseNumber[string]#1: V = V
+//@ props C05 C20
+//@ alias parse[[]byte] = parse[string]
+
+// Parse (C05): the contract of parse with the Parse payload.
+//@ func Parse
+//@ returns (v, err)
+//@ logical V real
+//@ define D0 = s
+//@ define SGN = (len(D0) > 0 && (D0[0] == 43 || D0[0] == 45))
+//@ define NEG = (len(D0) > 0 && D0[0] == 45)
+//@ define B = from(D0, ite(SGN, 1, 0))
+//@ define INF3 = (len(B) == 3 && (B[0] == 73 || B[0] == 105) && (B[1] == 78 || B[1] == 110) && (B[2] == 70 || B[2] == 102))
+//@ define NAN3 = (len(B) == 3 && (B[0] == 78 || B[0] == 110) && (B[1] == 65 || B[1] == 97) && (B[2] == 78 || B[2] == 110))
+//@ define INF8 = (len(B) == 8 && (B[0] == 73 || B[0] == 105) && (B[1] == 78 || B[1] == 110) && (B[2] == 70 || B[2] == 102) && (B[3] == 73 || B[3] == 105) && (B[4] == 78 || B[4] == 110) && (B[5] == 73 || B[5] == 105) && (B[6] == 84 || B[6] == 116) && (B[7] == 89 || B[7] == 121))
+//@ define NAME = (INF3 || NAN3 || INF8)
+//@ define ACCEPT = ((pst(B, len(B)) == 1 || pst(B, len(B)) == 4 || pst(B, len(B)) == 5 || pst(B, len(B)) == 9))
+//@ define EXPO = (ite(esg(B, len(B)) == 1, 0 - ev(B, len(B)), ev(B, len(B))) - nfd(B, len(B)))
+//@ define SYNTAX = (tag(err) == typetag("*parseSyntaxError"))
+//@ define RANGE = (tag(err) == typetag("*parseRangeError"))
+//@ requires len(s) <= 1099511627776 && DefaultRoundingMode <= 5
+//@ requires ACCEPT ==> V >= 0 && rs(V, 6176 + EXPO) == real(dv(B, len(B)))
+//@ ensures INF3 || INF8 ==> tag(err) == 0 && isinf(v) && sign(v) == NEG && lo(v) == 0
+//@ ensures NAN3 ==> tag(err) == 0 && isnan(v) && !sign(v) && lo(v) == payloadOpParse
+//@ ensures !NAME ==> (SYNTAX <==> !ACCEPT)
+//@ ensures tag(err) == 0 || SYNTAX || RANGE
+//@ ensures SYNTAX ==> lo(v) == 0 && hi(v) == 0
+//@ ensures !NAME && !SYNTAX ==> (RANGE <==> isinf(v)) && !isnan(v)
+//@ ensures !NAME && !SYNTAX && isinf(v) ==> sign(v) == NEG && lo(v) == 0 && Ovf(DefaultRoundingMode, NEG, rs(V, 12287))
+//@ ensures !NAME && tag(err) == 0 ==> !special(v) && sign(v) == NEG
+//@ ensures !NAME && tag(err) == 0 && dv(B, len(B)) == 0 ==> coef(v) == 0
+//@ ensures !NAME && tag(err) == 0 && dv(B, len(B)) != 0 ==> (rs(V, 0) < 0.1 && coef(v) == 0) || (rs(V, 0) >= 0.1 && RndOK(DefaultRoundingMode, NEG, rs(V, bexp(v)), coef(v), bexp(v)))
+//@ call parse[string]#1: V = V
+//@ props C05 C20
+
+// MustParse (C05, C20): panics exactly on the strings Parse reports an error for (syntax or range).
+//@ func MustParse
+//@ returns (v)
+//@ logical V real
+//@ define D0 = s
+//@ define SGN = (len(D0) > 0 && (D0[0] == 43 || D0[0] == 45))
+//@ define NEG = (len(D0) > 0 && D0[0] == 45)
+//@ define B = from(D0, ite(SGN, 1, 0))
+//@ define INF3 = (len(B) == 3 && (B[0] == 73 || B[0] == 105) && (B[1] == 78 || B[1] == 110) && (B[2] == 70 || B[2] == 102))
+//@ define NAN3 = (len(B) == 3 && (B[0] == 78 || B[0] == 110) && (B[1] == 65 || B[1] == 97) && (B[2] == 78 || B[2] == 110))
+//@ define INF8 = (len(B) == 8 && (B[0] == 73 || B[0] == 105) && (B[1] == 78 || B[1] == 110) && (B[2] == 70 || B[2] == 102) && (B[3] == 73 || B[3] == 105) && (B[4] == 78 || B[4] == 110) && (B[5] == 73 || B[5] == 105) && (B[6] == 84 || B[6] == 116) && (B[7] == 89 || B[7] == 121))
+//@ define NAME = (INF3 || NAN3 || INF8)
+//@ define ACCEPT = ((pst(B, len(B)) == 1 || pst(B, len(B)) == 4 || pst(B, len(B)) == 5 || pst(B, len(B)) == 9))
+//@ define EXPO = (ite(esg(B, len(B)) == 1, 0 - ev(B, len(B)), ev(B, len(B))) - nfd(B, len(B)))
+//@ requires len(s) <= 1099511627776 && DefaultRoundingMode <= 5
+//@ requires ACCEPT ==> V >= 0 && rs(V, 6176 + EXPO) == real(dv(B, len(B)))
+//@ panics !NAME && (!ACCEPT || Ovf(DefaultRoundingMode, NEG, rs(V, 12287)))
+//@ ensures INF3 || INF8 ==> isinf(v) && sign(v) == NEG && lo(v) == 0
+//@ ensures NAN3 ==> isnan(v) && !sign(v) && lo(v) == payloadOpMustParse
+//@ ensures !NAME ==> ACCEPT && !special(v) && sign(v) == NEG
+//@ ensures !NAME && dv(B, len(B)) == 0 ==> coef(v) == 0
+//@ ensures !NAME && dv(B, len(B)) != 0 ==> (rs(V, 0) < 0.1 && coef(v) == 0) || (rs(V, 0) >= 0.1 && RndOK(DefaultRoundingMode, NEG, rs(V, bexp(v)), coef(v), bexp(v)))
+//@ call parse[string]#1: V = V
+//@ props C05 C20
+
+// UnmarshalText (C05): as Parse; the receiver is written only on success.
+//@ func Decimal.UnmarshalText
+//@ returns (err)
+//@ logical V real
+//@ define D0 = data
+//@ define SGN = (len(D0) > 0 && (D0[0] == 43 || D0[0] == 45))
+//@ define NEG = (len(D0) > 0 && D0[0] == 45)
+//@ define B = from(D0, ite(SGN, 1, 0))
+//@ define INF3 = (len(B) == 3 && (B[0] == 73 || B[0] == 105) && (B[1] == 78 || B[1] == 110) && (B[2] == 70 || B[2] == 102))
+//@ define NAN3 = (len(B) == 3 && (B[0] == 78 || B[0] == 110) && (B[1] == 65 || B[1] == 97) && (B[2] == 78 || B[2] == 110))
+//@ define INF8 = (len(B) == 8 && (B[0] == 73 || B[0] == 105) && (B[1] == 78 || B[1] == 110) && (B[2] == 70 || B[2] == 102) && (B[3] == 73 || B[3] == 105) && (B[4] == 78 || B[4] == 110) && (B[5] == 73 || B[5] == 105) && (B[6] == 84 || B[6] == 116) && (B[7] == 89 || B[7] == 121))
+//@ define NAME = (INF3 || NAN3 || INF8)
+//@ define ACCEPT = ((pst(B, len(B)) == 1 || pst(B, len(B)) == 4 || pst(B, len(B)) == 5 || pst(B, len(B)) == 9))
+//@ define EXPO = (ite(esg(B, len(B)) == 1, 0 - ev(B, len(B)), ev(B, len(B))) - nfd(B, len(B)))
+//@ define SYNTAX = (tag(err) == typetag("*parseSyntaxError"))
+//@ define RANGE = (tag(err) == typetag("*parseRangeError"))
+//@ requires len(data) <= 1099511627776 && DefaultRoundingMode <= 5
+//@ requires ACCEPT ==> V >= 0 && rs(V, 6176 + EXPO) == real(dv(B, len(B)))
+//@ ensures tag(err) != 0 ==> *d == old(*d)
+//@ ensures INF3 || INF8 ==> tag(err) == 0 && isinf(*d) && sign(*d) == NEG && lo(*d) == 0
+//@ ensures NAN3 ==> tag(err) == 0 && isnan(*d) && !sign(*d) && lo(*d) == payloadOpUnmarshalText
+//@ ensures !NAME ==> (SYNTAX <==> !ACCEPT)
+//@ ensures tag(err) == 0 || SYNTAX || RANGE
+//@ ensures !NAME && !SYNTAX && tag(err) != 0 ==> RANGE && Ovf(DefaultRoundingMode, NEG, rs(V, 12287))
+//@ ensures tag(err) == 0 && !NAME && !SYNTAX ==> (RANGE <==> isinf(*d)) && !isnan(*d)
+//@ ensures tag(err) == 0 && !NAME && !SYNTAX && isinf(*d) ==> sign(*d) == NEG && lo(*d) == 0 && Ovf(DefaultRoundingMode, NEG, rs(V, 12287))
+//@ ensures tag(err) == 0 && !NAME && tag(err) == 0 ==> !special(*d) && sign(*d) == NEG
+//@ ensures tag(err) == 0 && !NAME && tag(err) == 0 && dv(B, len(B)) == 0 ==> coef(*d) == 0
+//@ ensures tag(err) == 0 && !NAME && tag(err) == 0 && dv(B, len(B)) != 0 ==> (rs(V, 0) < 0.1 && coef(*d) == 0) || (rs(V, 0) >= 0.1 && RndOK(DefaultRoundingMode, NEG, rs(V, bexp(*d)), coef(*d), bexp(*d)))
+//@ call parse[[]byte]#1: V = V
+//@ props C05 C20
+
+// UnmarshalJSON (C13): "null" and the empty input leave the receiver untouched; otherwise the number
+// grammar without separators, the same value as Parse, errors as *json.UnmarshalTypeError and the
+// receiver written only on success.
+//@ func Decimal.UnmarshalJSON
+//@ returns (err)
+//@ logical V real
+//@ define ISNULL = (len(data) == 4 && data[0] == 110 && data[1] == 117 && data[2] == 108 && data[3] == 108)
+//@ define SKIP = (ISNULL || len(data) == 0)
+//@ define SGN = (len(data) > 0 && (data[0] == 43 || data[0] == 45))
+//@ define NEG = (len(data) > 0 && data[0] == 45)
+//@ define B = from(data, ite(SGN, 1, 0))
+//@ define ACCEPT = ((pst(B, len(B)) == 1 || pst(B, len(B)) == 4 || pst(B, len(B)) == 5 || pst(B, len(B)) == 9) && usc(B, len(B)) == 0)
+//@ define EXPO = (ite(esg(B, len(B)) == 1, 0 - ev(B, len(B)), ev(B, len(B))) - nfd(B, len(B)))
+//@ requires len(data) <= 1099511627776 && DefaultRoundingMode <= 5
+//@ requires !SKIP && ACCEPT ==> V >= 0 && rs(V, 6176 + EXPO) == real(dv(B, len(B)))
+//@ ensures SKIP ==> tag(err) == 0 && *d == old(*d)
+//@ ensures tag(err) != 0 ==> *d == old(*d) && tag(err) == typetag("*encoding/json.UnmarshalTypeError")
+//@ ensures !SKIP && !ACCEPT ==> tag(err) != 0
+//@ ensures !SKIP && ACCEPT && tag(err) != 0 ==> Ovf(DefaultRoundingMode, NEG, rs(V, 12287))
+//@ ensures !SKIP && tag(err) == 0 ==> ACCEPT && !special(*d) && sign(*d) == NEG
+//@ ensures !SKIP && tag(err) == 0 && dv(B, len(B)) == 0 ==> coef(*d) == 0
+//@ ensures !SKIP && tag(err) == 0 && dv(B, len(B)) != 0 ==> (rs(V, 0) < 0.1 && coef(*d) == 0) || (rs(V, 0) >= 0.1 && RndOK(DefaultRoundingMode, NEG, rs(V, bexp(*d)), coef(*d), bexp(*d)))
+//@ call parseNumber[[]byte]#1: V = V
+//@ props C13 C20
